@@ -156,6 +156,9 @@ func (g *gen) time() time.Time {
 }
 func (g *gen) tags() osm.Tags {
 	n := g.rng.Intn(4)
+	if g.rng.Intn(15) == 0 {
+		n = 5 + g.rng.Intn(len(keyPool)-5) // many tags
+	}
 	if g.rng.Float64() > g.p {
 		n = 0
 	}
@@ -171,6 +174,9 @@ func (g *gen) tags() osm.Tags {
 }
 func (g *gen) wayNodes() osm.WayNodes {
 	n := g.rng.Intn(5)
+	if g.rng.Intn(15) == 0 {
+		n = 17 + g.rng.Intn(30) // a long way
+	}
 	if g.rng.Float64() > g.p {
 		n = 0
 	}
@@ -253,6 +259,9 @@ func (g *gen) fill(v reflect.Value) {
 	case reflect.Slice:
 		if g.rng.Float64() < g.p {
 			n := 1 + g.rng.Intn(3)
+			if g.rng.Intn(12) == 0 {
+				n = 8 + g.rng.Intn(6) // a long slice (members, updates, comments, languages)
+			}
 			s := reflect.MakeSlice(t, n, n)
 			for i := 0; i < n; i++ {
 				e := s.Index(i)
@@ -650,7 +659,7 @@ func main() {
 	}
 	// 4. single-fault documents (no expectation: model vs implementation only)
 	for i := 0; i < nBad; i++ {
-		dg := &docGen{rng: rng, p: 0.7, minElems: 1, plain: true}
+		dg := &docGen{rng: rng, p: 0.7, minElems: 1 + 5*(i/14%2), plain: true}
 		doc, _ := dg.document()
 		fault := dg.damage(doc, i)
 		var b bytes.Buffer
